@@ -282,7 +282,40 @@ def gen_soup(ctx, rnd):
         st = rnd.choice(["101", "101", "101", " 101", "+101", "0101", "1_0_1", "101 ", "101\t", "1010", "10"])
         ver = rnd.choice(["HTTP/1.1", "HTTP/1.1", "HTTP/1.0", "X", ""])
         raw = response(st, fields, version=ver, reason=rnd.choice(["Switching Protocols", None, ""]), eol=eol)
+        if rnd.random() < 0.15:
+            # bytes that are not UTF-8 INSIDE a validated value (dropping them would repair the value)
+            vb = rnd.choice(["websocket", "Upgrade", accept_of(k0)]).encode()
+            i = raw.find(vb)
+            if i >= 0:
+                pos = i + rnd.choice([0, len(vb) // 2, len(vb)])
+                raw = raw[:pos] + rnd.choice([b"\xff", b"\xc3", b"\x80\x80", b"\xfe"]) + raw[pos:]
         yield Case("ws://a.example/", [DialSpec([("chunk", raw)], rand=r0)], tag="soup")
+
+
+def gen_garbled(ctx, rnd):
+    """an otherwise perfect 101 response with bytes that are not UTF-8 inside ONE validated value or name:
+    dropping or replacing those bytes would repair it — the response as sent is not a valid upgrade response."""
+    for which in ("websocket", "Upgrade", "accept", "Sec-WebSocket-Accept", "Connection"):
+        for where in (0, 1, 2):
+            for junk in (b"\xff", b"\xc3", b"\x80\x80", b"\xfe\xff", b"\xed\xa0\x80"):
+                r0, = rands(rnd, 1)
+                k0 = key_of(r0)
+                raw = response("101", good_headers(k0))
+                vb = (accept_of(k0) if which == "accept" else which).encode()
+                i = raw.find(vb)
+                pos = i + (0, len(vb) // 2, len(vb))[where]
+                raw = raw[:pos] + junk + raw[pos:]
+                yield Case("ws://a.example/", [DialSpec([("chunk", raw)], rand=r0)], tag="garbled")
+    # well-formed UTF-8, but not the ASCII token: characters whose Unicode lower-casing lands on an ASCII letter
+    # (U+212A KELVIN SIGN -> k), or that merely look alike
+    for up in ("websoc\u212aet", "WEBSOC\u212aET", "web\u017focket", "webs\u00f6cket"):
+        r0, = rands(rnd, 1)
+        yield Case("ws://a.example/", [DialSpec([("chunk", response("101", good_headers(key_of(r0), upgrade=up)))], rand=r0)],
+                   tag="garbled")
+    for sub, offered in (("\u212a", ["k"]), ("\u212aafka", ["kafka"]), ("KAFKA", ["kafka"]), ("kafka", ["\u212aafka"])):
+        r0, = rands(rnd, 1)
+        yield Case("ws://a.example/", [DialSpec([("chunk", response("101", good_headers(key_of(r0), sub=sub)))], rand=r0)],
+                   options={"subprotocols": offered}, tag="garbled")
 
 
 # ---------------------------------------------------------------------------------------------------
@@ -336,6 +369,19 @@ def judge(ctx, case, run, spec_lines, pending):
         if key is None:
             key = case.options.get("header", {}).get("Sec-WebSocket-Key", "") if isinstance(case.options.get("header"), dict) else ""
         if parsed is None:
+            # bytes that are not UTF-8 on the line of a validated header: whatever the code made of them, the field as
+            # sent cannot carry the required value
+            m = re.search(rb"\r?\n\r?\n", raw)
+            for ln in (raw[:m.start()] if m else raw).split(b"\n"):
+                try:
+                    ln.decode("utf-8")
+                except UnicodeDecodeError:
+                    nm = ln.decode("utf-8", "ignore").split(":", 1)[0].strip().lower()
+                    near = [h for h in ("upgrade", "connection", "sec-websocket-accept") if h == nm or
+                            (len(nm) == len(h) - 1 and any(h[:i] + h[i + 1:] == nm for i in range(len(h))))]
+                    if near:
+                        ctx.violate("established", "undecodable-bytes-in-validated-field", inp,
+                                    f"raise: the {near[0]} field as sent is not text", run.obs, size)
             # not a grammatical head for the independent reader: judge the code's own reading
             fields = sorted((run.headers or {}).items())
             status = run.status
@@ -494,7 +540,7 @@ def run_corpus(ctx):
 
 def all_cases(ctx):
     rnd = ctx.rng("e2e")
-    for g in (gen_chains, gen_failures, gen_options_chain, gen_single, gen_truncations, gen_soup):
+    for g in (gen_chains, gen_failures, gen_options_chain, gen_single, gen_truncations, gen_soup, gen_garbled):
         yield from g(ctx, rnd)
 
 
